@@ -126,6 +126,10 @@ def gen_iban_overlay(rng, bundled):
     doc = {}
     kinds = rng.sample(["new", "lengthen", "move", "extra", "sepa", "spec_same_len", "drop_in"], rng.randrange(1, 4))
     ccs = sorted(bundled)
+    # a free-form key under one fixed country whose value is a dictionary in some files and a scalar in others: with three or
+    # more files the name-ordered left fold is the only order that gives the right answer (dict, scalar, dict ...)
+    doc.setdefault("DE", {})["x_note"] = rng.choice([0, "s", None, {"a": rng.randrange(3)}, {"b": rng.randrange(3)},
+                                                      {"a": 1, "c": {"d": rng.randrange(3)}}, {"c": 7}])
     for kind in kinds:
         if kind == "new":
             cc = rng.choice(["ZZ", "QQ", "XA"])
@@ -312,7 +316,7 @@ def bundled():
 
 def gen_copy_config(rng):
     b = bundled()["table"]
-    n = rng.randrange(1, 4)
+    n = rng.randrange(1, 5)
     # names sort before ("a..."), between ("h...": generated < h < overwrite) and after ("z...") the bundled files
     prefixes = rng.sample(["aoverlay", "hoverlay", "poverlay", "zoverlay", "zzlast"], n)
     iban_files = {f"{p}.json": gen_iban_overlay(rng, b) for p in prefixes}
